@@ -401,8 +401,9 @@ theorem mapGet_eq_lookup (key : Int) (m : GoMap) : Model.C13.mapGet key m = Spec
     obtain ⟨k, v⟩ := e
     by_cases hk : k = key <;> simp [Model.C13.mapGet, Spec.C13.lookup, hk, ih]
 
-theorem minByKeyLoop_eq (key : Int) (ms : List GoMap) (mn : Int) :
-    Model.C13.minByKeyLoop key ms mn = Model.C13.minLoop (Spec.C13.keyVals key ms) mn := by
+/-- the by-key loop once a value has been found: the running minimum over the remaining values -/
+theorem minByKeyLoop_found (key : Int) (ms : List GoMap) (mn : Int) :
+    Model.C13.minByKeyLoop key ms true mn = (true, Model.C13.minLoop (Spec.C13.keyVals key ms) mn) := by
   induction ms generalizing mn with
   | nil => rfl
   | cons m r ih =>
@@ -410,11 +411,28 @@ theorem minByKeyLoop_eq (key : Int) (ms : List GoMap) (mn : Int) :
     cases h : Spec.C13.lookup key m with
     | none => simp only [ih]; rfl
     | some v =>
-      simp only [Model.C13.minLoop]
-      by_cases hv : v < mn <;> simp only [hv, if_true, if_false, ih] <;> rfl
+      simp only [Model.C13.minLoop, Bool.not_true, Bool.false_or]
+      by_cases hv : v < mn <;> simp only [hv, decide_true, decide_false, if_true, if_false, Bool.false_eq_true, ih] <;> rfl
 
-theorem maxByKeyLoop_eq (key : Int) (ms : List GoMap) (mx : Int) :
-    Model.C13.maxByKeyLoop key ms mx = Model.C13.maxLoop (Spec.C13.keyVals key ms) mx := by
+/-- the by-key loop before any value has been found: it stays "not found" exactly when no map holds the key; otherwise
+the first value seeds the running minimum -/
+theorem minByKeyLoop_eq (key : Int) (ms : List GoMap) (mn : Int) :
+    Model.C13.minByKeyLoop key ms false mn =
+      match Spec.C13.keyVals key ms with
+      | [] => (false, mn)
+      | v :: vs => (true, Model.C13.minLoop vs v) := by
+  induction ms generalizing mn with
+  | nil => rfl
+  | cons m r ih =>
+    simp only [Model.C13.minByKeyLoop, mapGet_findByKey, Spec.C13.keyVals, List.filterMap_cons]
+    cases h : Spec.C13.lookup key m with
+    | none => simp only [ih]; rfl
+    | some v =>
+      simp only [Bool.not_false, Bool.true_or, if_true, minByKeyLoop_found]
+      rfl
+
+theorem maxByKeyLoop_found (key : Int) (ms : List GoMap) (mx : Int) :
+    Model.C13.maxByKeyLoop key ms true mx = (true, Model.C13.maxLoop (Spec.C13.keyVals key ms) mx) := by
   induction ms generalizing mx with
   | nil => rfl
   | cons m r ih =>
@@ -422,8 +440,23 @@ theorem maxByKeyLoop_eq (key : Int) (ms : List GoMap) (mx : Int) :
     cases h : Spec.C13.lookup key m with
     | none => simp only [ih]; rfl
     | some v =>
-      simp only [Model.C13.maxLoop]
-      by_cases hv : v > mx <;> simp only [hv, if_true, if_false, ih] <;> rfl
+      simp only [Model.C13.maxLoop, Bool.not_true, Bool.false_or]
+      by_cases hv : v > mx <;> simp only [hv, decide_true, decide_false, if_true, if_false, Bool.false_eq_true, ih] <;> rfl
+
+theorem maxByKeyLoop_eq (key : Int) (ms : List GoMap) (mx : Int) :
+    Model.C13.maxByKeyLoop key ms false mx =
+      match Spec.C13.keyVals key ms with
+      | [] => (false, mx)
+      | v :: vs => (true, Model.C13.maxLoop vs v) := by
+  induction ms generalizing mx with
+  | nil => rfl
+  | cons m r ih =>
+    simp only [Model.C13.maxByKeyLoop, mapGet_findByKey, Spec.C13.keyVals, List.filterMap_cons]
+    cases h : Spec.C13.lookup key m with
+    | none => simp only [ih]; rfl
+    | some v =>
+      simp only [Bool.not_false, Bool.true_or, if_true, maxByKeyLoop_found]
+      rfl
 
 /-! ## aggregates -/
 
